@@ -417,69 +417,86 @@ fn c11_wrath_read_client_facade() {
     c11_wrath_read_client_impl(true);
 }
 
-/// C11: client reads a 4- or 5-byte server header through a faulty reader.
-fn c11_wrath_read_server_impl(facade: bool) {
+/// C11: client reads a 4- or 5-byte server header. `mode` 1: the reader fragments and interrupts but never
+/// fails; `mode` 2: the reader fails (error of any kind, or end of file) after exactly `fail_at` bytes.
+fn c11_wrath_read_server_impl(facade: bool, mode: u8) -> (bool, usize, bool) {
     let cd0 = dh::any_client_dec_at(253);
     let ce0 = eh::any_client_enc_at(252);
     let mut rd = AnyReader::new();
-    rd.max_calls = 6; // two read_exact loops share the budget: 6 calls in total for the 4+1 bytes
+    rd.mode = mode;
+    rd.max_calls = 7;
+    if mode == 2 {
+        rd.fail_at = kani::any();
+        kani::assume(rd.fail_at <= 4);
+    }
     let w = [rd.stream[0], rd.stream[1], rd.stream[2], rd.stream[3], rd.stream[4]];
     // reference: the two-step calls on the delivered bytes
     let mut ref4 = cd0.clone();
     let att = ref4.attempt_decrypt_server_header([w[0], w[1], w[2], w[3]]);
+    let large = matches!(att, WrathServerAttempt::AdditionalByteRequired);
     let mut cc = ClientCrypto { decrypt: cd0.clone(), encrypt: ce0.clone() };
     let r = if facade { cc.read_and_decrypt_server_header(&mut rd) } else { cc.decrypt.read_and_decrypt_server_header(&mut rd) };
-    match r {
+    let ok = match r {
         Ok(h) => {
             assert!(!rd.failed, "C11: header returned although the reader failed");
             match att {
                 WrathServerAttempt::Header(e) => {
                     assert!(rd.pos == 4 && h == e, "C11: wrath read wrapper differs from the attempt call on a small header");
                     assert!(cdec_same(&cc.decrypt, &ref4), "C11: wrath read wrapper leaves another state than the attempt call");
-                    kani::cover!(rd.fragments >= 2, "small header in fragments");
                 }
                 WrathServerAttempt::AdditionalByteRequired => {
                     let e = ref4.decrypt_large_server_header(w[4]);
                     assert!(rd.pos == 5 && h == e, "C11: wrath read wrapper differs from the two-step calls on a large header");
                     assert!(cdec_same(&cc.decrypt, &ref4), "C11: wrath read wrapper leaves another state than the two-step calls");
-                    kani::cover!(rd.fragments >= 3, "large header in three fragments");
                 }
             }
+            true
         }
         Err(e) => {
             core::mem::forget(e);
             assert!(rd.failed, "C11: wrath read wrapper failed although the reader did not");
             if rd.pos < 4 {
                 assert!(cdec_same(&cc.decrypt, &cd0), "C11: failed read of the first four bytes changed the wrath client decrypter");
-                kani::cover!(rd.pos == 3, "failure after three bytes");
             } else {
                 // failed at the fifth byte: exactly as after the 4-byte attempt, and completable later
                 assert!(rd.pos == 4, "C11: reader position inconsistent");
-                assert!(matches!(att, WrathServerAttempt::AdditionalByteRequired), "C11: fifth byte requested for a small header");
+                assert!(large, "C11: fifth byte requested for a small header");
                 assert!(cdec_same(&cc.decrypt, &ref4), "C11: failure at the fifth byte does not leave the state of the 4-byte attempt");
                 let b: u8 = kani::any();
                 let later = cc.decrypt.decrypt_large_server_header(b);
                 let expect = ref4.decrypt_large_server_header(b);
                 assert!(later == expect && cdec_same(&cc.decrypt, &ref4), "C11: supplying the fifth byte later does not complete the header");
-                kani::cover!(true, "failure at the fifth byte");
             }
+            false
         }
-    }
+    };
     assert!(cenc_same(&cc.encrypt, &ce0), "C11: reading changed the encrypter");
+    (ok, rd.pos, large)
 }
 #[kani::proof]
 #[kani::unwind(42)]
 #[kani::stub(crate::wrath_header::inner_crypto::InnerCrypto::apply, ich::pad_apply_inner)]
 fn c11_wrath_read_server() {
-    c11_wrath_read_server_impl(false);
+    let (ok, pos, large) = c11_wrath_read_server_impl(false, 1);
+    kani::cover!(ok && pos == 5 && large, "large header delivered in fragments");
+    kani::cover!(ok && pos == 4 && !large, "small header delivered in fragments");
+}
+#[kani::proof]
+#[kani::unwind(42)]
+#[kani::stub(crate::wrath_header::inner_crypto::InnerCrypto::apply, ich::pad_apply_inner)]
+fn c11_wrath_read_server_fail() {
+    let (ok, pos, large) = c11_wrath_read_server_impl(false, 2);
+    kani::cover!(!ok && pos == 4 && large, "failure at the fifth byte");
+    kani::cover!(!ok && pos == 3, "failure after three bytes");
+    kani::cover!(ok && pos == 4 && !large, "small header complete before the failure point");
 }
 #[kani::proof]
 #[kani::unwind(42)]
 #[kani::stub(crate::wrath_header::inner_crypto::InnerCrypto::apply, ich::pad_apply_inner)]
 fn c11_wrath_read_server_facade() {
-    c11_wrath_read_server_impl(true);
+    let (ok, pos, large) = c11_wrath_read_server_impl(true, 2);
+    kani::cover!(!ok && pos == 4 && large, "failure at the fifth byte");
 }
-
 /// C11: Wrath write wrappers with a faulty writer.
 fn c11_wrath_write_client_impl(facade: bool) {
     let ce0 = eh::any_client_enc_at(252);
